@@ -16,6 +16,16 @@ claim("C16",
       "BitArray functions are verified with exact 64/32-bit vectors; BitMatrix functions in integer mode with the bit theory (wbit axioms) and products of symbolic integers "
       "uninterpreted except for the separately proved index lemmas (rowIdx, rowIdxInj, rowLast, rowRange, mulBound); int overflow not checked in int mode.")
 
-for p in ["C01","C02","C03","C04","C05","C06","C07","C08","C09","C10","C12","C13","C14","C15","C17","C18","C19"]:
+claim("C13",
+      "QR: willFit is proved equal to 'data codewords of (version, level) >= ceil(bits/8)' over the compiled VERSIONS table; chooseVersion is proved to return the least "
+      "version that fits, or an error exactly when none of 1..40 fits (loop invariant). Table lemmas (all 160 version/level pairs, by cases over the dumped table): block structure "
+      "sums to the total codewords, total = raw modules/8 by the standard's closed form, capacity strictly ordered by level and version, anchor capacities 19/9/2956/2334/1666/1276. "
+      "Data Matrix: SymbolInfo_Lookup is proved to return the first table entry that passes the shape/min/max filters and holds the codewords (nil/error exactly when none does); "
+      "the 30-entry symbol table is proved consistent (regions, modules = 8*(data+error), interleaved blocks, capacity order per shape, 144x144 = 1558). "
+      "Not covered yet: the two-pass recommendVersion argument, the forced-version hint in Encoder_encode, the published digit/alphanumeric capacities derived from segment bit counts.",
+      "table contents are dumped from the compiled package on every run (after init) and assumed unmodified afterwards (the C18 frame claim); "
+      "products of symbolic integers uninterpreted outside lemmas; contracts of ECBlocks methods applied to interior pointers &v.ecBlocks[i].")
+
+for p in ["C01","C02","C03","C04","C05","C06","C07","C08","C09","C10","C12","C14","C15","C17","C18","C19"]:
     na(p, NOTYET)
 na("C11", "The library has no Aztec writer: 'conforming symbol' would have to be a hand-written restatement of ISO/IEC 24778 (a model, not the code), and the image-to-bits path is a float-geometry detector; no contract on one call of the real code expresses the property. The Aztec decoder's totality is covered under C06.")
